@@ -23,6 +23,7 @@ type Frame struct {
 	prefix string // obligation-name prefix for inlined frames
 	depth  int
 	inl    bool
+	prev   *ssa.BasicBlock
 }
 
 func (f *Frame) clone() *Frame {
@@ -337,6 +338,9 @@ func (x *Exec) runBlock(fr *Frame, b *ssa.BasicBlock, idx int, st *State, k cont
 				default:
 					rv = TupleV(rets)
 				}
+				if t, ok := rv.(*Term); ok {
+					rv = nameBig(t)
+				}
 				fr2.regs[call] = rv
 				x.runBlock(fr2, b, i+1, st2, k)
 			})
@@ -349,6 +353,7 @@ func (x *Exec) runBlock(fr *Frame, b *ssa.BasicBlock, idx int, st *State, k cont
 
 // enter transfers control to block to (from block from), applying the loop rule at loop headers.
 func (x *Exec) enter(fr *Frame, from, to *ssa.BasicBlock, st *State, k cont) {
+	fr.prev = from
 	lt := x.loops(fr.fn)
 	ord, isHdr := lt.headers[to]
 	if !isHdr {
@@ -411,7 +416,11 @@ func (x *Exec) step(fr *Frame, st *State, in ssa.Instruction) {
 	case *ssa.UnOp:
 		fr.regs[n] = x.unop(fr, st, n)
 	case *ssa.BinOp:
-		fr.regs[n] = x.binop(fr, st, n)
+		v := x.binop(fr, st, n)
+		if t, ok := v.(*Term); ok {
+			v = nameBig(t)
+		}
+		fr.regs[n] = v
 	case *ssa.FieldAddr:
 		base := x.val(fr, st, n.X)
 		st0 := n.X.Type().Underlying().(*types.Pointer).Elem()
@@ -523,7 +532,17 @@ func (x *Exec) step(fr *Frame, st *State, in ssa.Instruction) {
 			fr.regs[n] = v
 		}
 	case *ssa.Phi:
-		x.fail("unexpected phi in naive form")
+		// only short-circuit boolean expressions produce phis in naive form
+		idx := -1
+		for i, p := range n.Block().Preds {
+			if p == fr.prev {
+				idx = i
+			}
+		}
+		if idx < 0 {
+			x.fail("phi without a known predecessor")
+		}
+		fr.regs[n] = x.val(fr, st, n.Edges[idx])
 	default:
 		x.fail("unsupported instruction %T: %s", in, in)
 	}
